@@ -149,7 +149,14 @@ func (g *Global) LLString() string {
 		fmt.Fprintf(buf, ", partition %s", quote(g.Partition))
 	}
 	if g.Comdat != nil {
-		if g.Comdat.Name == g.Name() {
+		// The comdat name is omitted when it is the name of the global variable itself
+		// (the name, not its display form: Name() returns all-digit names in
+		// quotes); the parser reads a bare `comdat` the same way.
+		implicit := g.GlobalName
+		if g.IsUnnamed() {
+			implicit = g.Name()
+		}
+		if g.Comdat.Name == implicit {
 			buf.WriteString(", comdat")
 		} else {
 			fmt.Fprintf(buf, ", %s", g.Comdat)
